@@ -1,0 +1,36 @@
+//go:build verif
+
+// C15 (codecs round-trip) harnesses for embedded/tbtree. verifAssume / verifAssert live in zz_verif_contracts.go.
+package tbtree
+
+// --- con-c15 begin
+
+// commit-log entry: deserialize(serialize(e)) == e for every entry whose initialNLogSize is non-negative (its sign bit
+// carries the "async" flag on disk) and whose rootNodeSize fits the 32-bit field; isValid is preserved.
+func verif_clogentry_roundtrip(e *cLogEntry) {
+	verifAssume(e != nil)
+	verifAssume(e.initialNLogSize >= 0 && 0 <= e.rootNodeSize && e.rootNodeSize <= 0xFFFFFFFF)
+	bs := e.serialize()
+	verifAssert("len", len(bs) == cLogEntrySize)
+	e2 := &cLogEntry{}
+	e2.deserialize(bs)
+	verifAssert("synced", e2.synced == e.synced)
+	verifAssert("initialNLogSize", e2.initialNLogSize == e.initialNLogSize)
+	verifAssert("finalNLogSize", e2.finalNLogSize == e.finalNLogSize)
+	verifAssert("rootNodeSize", e2.rootNodeSize == e.rootNodeSize)
+	verifAssert("nLogChecksum", e2.nLogChecksum == e.nLogChecksum)
+	verifAssert("initialHLogSize", e2.initialHLogSize == e.initialHLogSize)
+	verifAssert("finalHLogSize", e2.finalHLogSize == e.finalHLogSize)
+	verifAssert("hLogChecksum", e2.hLogChecksum == e.hLogChecksum)
+	verifAssert("isValid", e2.isValid() == e.isValid())
+}
+
+// isValid says exactly: sizes are ordered and the root node lies inside the node log
+func verif_clogentry_isvalid(e *cLogEntry) {
+	verifAssume(e != nil)
+	v := e.isValid()
+	verifAssert("def", v == (e.initialNLogSize <= e.finalNLogSize && e.rootNodeSize > 0 &&
+		int64(e.rootNodeSize) <= e.finalNLogSize && e.initialHLogSize <= e.finalHLogSize))
+}
+
+// --- con-c15 end
